@@ -29,8 +29,9 @@
                           `create_vanished_source_fails` says what the code does then;
     * `HasInode cfg e`    with -H a multiply-linked regular file carries `inode = Some(..)` (always on Unix);
                           `hardlink_without_inode_is_plain_copy` says what the code does otherwise;
-    * `NotPlainDir e`     (update only) the entry is not a plain directory: never planned; the model and the code
-                          see `update_dir_call_sequence`;
+    * (no more `NotPlainDir e`: since fix 862af11 `update` of a plain directory entry is planned — for a destination
+                          link standing where the source has a directory — and bridged: `update_dir_call_sequence`,
+                          `update_dir_eq_model`; `update_eq_model` covers every entry kind);
     * `FlagOK`            (delete only) the `is_dir` flag describes the node (computed by the engine right before).
   Part 3 — where code and model differ (concrete inputs).
   Part 4 — C17 restated about the TRANSLATED `create`: preserve / follow / skip, and the xattrs of a transferred file.
@@ -213,11 +214,76 @@ theorem create_eq_model (cfg : Cfg) (self : Transferrer) (ha : Agrees self cfg) 
 /-- BRIDGE (`update`): the same for the update task (later members of a link group are RE-linked; `sync_file_with_delta`
     instead of `copy_file`). -/
 theorem update_eq_model (cfg : Cfg) (self : Transferrer) (ha : Agrees self cfg) (xw : XWorld) (e : FileEntry)
-    (k : Engine.Path) (hk : CleanPath k) (hread : Readable cfg e) (hsrc : SrcFile xw e) (hino : HasInode cfg e)
-    (hnd : NotPlainDir e) :
+    (k : Engine.Path) (hk : CleanPath k) (hread : Readable cfg e) (hsrc : SrcFile xw e) (hino : HasInode cfg e) :
     Agree xw k (runM (self.update (extOf cfg) e (destOf xw.root k)) xw)
       (perform cfg xw.w (absTask cfg xw .update e k)) :=
-  update_agree cfg self ha xw e k hk hread hsrc hino hnd
+  update_agree cfg self ha xw e k hk hread hsrc hino
+
+/-- BRIDGE (`update` of a plain DIRECTORY entry, fix 862af11 — the replacement of a destination link standing where the
+    source has a directory): running the translated `update` (`read_link` probe → `remove(path, false)` of a link →
+    `create_dir_all`) on the model's instance agrees with `perform` of the `.update` task with payload `.dir`, success
+    and failure, for EVERY node at the key — absent or a directory (`create_dir_all` alone), a regular file (the probe
+    answers "not a link", `create_dir_all` fails, nothing changes), a symlink (unlinked as itself, never followed; then
+    the directory is created).  No hypothesis on the entry beyond its kind. -/
+theorem update_dir_eq_model (cfg : Cfg) (self : Transferrer) (ha : Agrees self cfg) (xw : XWorld) (e : FileEntry)
+    (k : Engine.Path) (hk : CleanPath k) (hs : e.is_symlink = false) (hdir : e.is_dir = true) :
+    Agree xw k (runM (self.update (extOf cfg) e (destOf xw.root k)) xw)
+      (perform cfg xw.w (absTask cfg xw .update e k)) :=
+  update_dir_agree cfg self ha xw e k hk hs hdir
+
+/-- … and what that means at the key, for a real (non-dry) run over a symlink node: `Ok`, the node at the key is a
+    directory afterwards, and every other path of the destination map is as it was except absent ancestors (now
+    directories) — the link's text is never used. -/
+theorem update_dir_over_link_replaces (cfg : Cfg) (self : Transferrer) (ha : Agrees self cfg) (hnd : cfg.dryRun = false)
+    (xw : XWorld) (e : FileEntry) (k : Engine.Path) (hk : CleanPath k) (hs : e.is_symlink = false)
+    (hdir : e.is_dir = true) (t : String) (hl : xw.w.dst.get? k = some (.symlink t))
+    (hanc : ∀ a, a ≠ [] → isPrefix a k = true → a ≠ k → xw.w.dst.get? a = some .dir) :
+    ∃ r xw', runM (self.update (extOf cfg) e (destOf xw.root k)) xw = (.ok r, xw') ∧
+      xw'.w.dst.get? k = some .dir ∧ ∀ x, x ≠ k → xw'.w.dst.get? x = xw.w.dst.get? x := by
+  have hag := update_dir_eq_model cfg self ha xw e k hk hs hdir
+  have hp : ∃ w', perform cfg xw.w (absTask cfg xw .update e k) = some w' ∧ w'.dst.get? k = some .dir ∧
+      ∀ x, x ≠ k → w'.dst.get? x = xw.w.dst.get? x := by
+    unfold absTask
+    rw [perform_update cfg _ _ _ hnd]
+    simp only [absPayload, hs, hdir, cuArm, Bool.false_eq_true, ↓reduceIte, mkdirW, unlinkLink_of_link _ _ t hl]
+    have hdirs : ∀ x, x ≠ [] → isPrefix x k = true → x ≠ k → (xw.w.dst.erase k).get? x = some .dir := by
+      intro x hx hp hne
+      rw [Map.get?_erase]; simp only [Ne.symm hne, ↓reduceIte]; exact hanc x hx hp hne
+    cases hm : mkdirAll (xw.w.dst.erase k) k with
+    | none =>
+      exfalso
+      -- every strict prefix is a directory and the key itself is absent: `mkdirAll` cannot fail
+      have hpar : mkdirAll (xw.w.dst.erase k) (parentOf k) = some (xw.w.dst.erase k) :=
+        mkdirAll_of_dirs _ _ (fun x hx hp => hdirs x hx (isPrefix_trans hp (parentOf_isPrefix k)) (by
+          intro he; subst he
+          have h1 := isPrefix_length hp
+          have : 0 < x.length := List.length_pos_iff.mpr hx
+          simp [parentOf] at h1; omega))
+      have hk0 : (xw.w.dst.erase k).get? k = none := by simp [Map.get?_erase]
+      have : mkdirAll (xw.w.dst.erase k) k = some ((xw.w.dst.erase k).set k .dir) := by
+        rw [mkdirAll_eq]
+        rw [List.foldl_append]
+        rw [mkdirAll_eq] at hpar
+        have hanc' : (ancestors k).foldl mkStep (some (xw.w.dst.erase k)) = some (xw.w.dst.erase k) :=
+          foldl_mkStep_of_dirs _ _ (fun x hx hne => by
+            obtain ⟨h1, h2, h3⟩ := mem_ancestors.1 hx
+            exact hdirs x h1 h2 h3)
+        rw [hanc']
+        simp [mkStep, hk.1, hk0]
+      rw [this] at hm; cases hm
+    | some d =>
+      refine ⟨_, rfl, mkdirAll_dirs hm k hk.1 (isPrefix_refl k), fun x hx => ?_⟩
+      show d.get? x = _
+      rcases mkdirAll_frame hm x with h | ⟨_, hp, hn, _⟩
+      · rw [h, Map.get?_erase]; simp [Ne.symm hx]
+      · -- an absent strict prefix would contradict `hanc`
+        exfalso
+        have := hdirs x (by intro h0; subst h0; simp_all) hp hx
+        rw [this] at hn; cases hn
+  obtain ⟨w', hw, h1, h2⟩ := hp
+  rw [hw] at hag
+  obtain ⟨r, hr⟩ := hag
+  exact ⟨r, _, hr, h1, h2⟩
 
 /-- BRIDGE (`delete`), entry present: `Ok`, and the world is `perform`'s — a directory goes with its subtree, a file or
     link alone; a dry run changes nothing.  (`perform` never answers `none` for a delete task.) -/
@@ -286,20 +352,20 @@ theorem create_err_left (er : Rs.Err) (xw' : XWorld)
     (h : runM (self.create (extOf cfg) e (destOf xw.root k)) xw = (.error er, xw')) : er = .io ∧ Left xw xw' k :=
   ((create_eq_model cfg self ha xw e k hk hread hsrc hino).left h).2
 
-theorem update_ok_iff_model (hnd : NotPlainDir e) :
+theorem update_ok_iff_model :
     (∃ r xw', runM (self.update (extOf cfg) e (destOf xw.root k)) xw = (.ok r, xw')) ↔
       (perform cfg xw.w (absTask cfg xw .update e k)).isSome = true :=
-  (update_eq_model cfg self ha xw e k hk hread hsrc hino hnd).ok_iff
+  (update_eq_model cfg self ha xw e k hk hread hsrc hino).ok_iff
 
-theorem update_ok_world (hnd : NotPlainDir e) (r : Option TransferResult) (xw' : XWorld)
+theorem update_ok_world (r : Option TransferResult) (xw' : XWorld)
     (h : runM (self.update (extOf cfg) e (destOf xw.root k)) xw = (.ok r, xw')) :
     perform cfg xw.w (absTask cfg xw .update e k) = some xw'.w ∧ xw' = { xw with w := xw'.w } :=
-  (update_eq_model cfg self ha xw e k hk hread hsrc hino hnd).world h
+  (update_eq_model cfg self ha xw e k hk hread hsrc hino).world h
 
-theorem update_err_iff_model (hnd : NotPlainDir e) :
+theorem update_err_iff_model :
     (∃ er xw', runM (self.update (extOf cfg) e (destOf xw.root k)) xw = (.error er, xw')) ↔
       perform cfg xw.w (absTask cfg xw .update e k) = none :=
-  (update_eq_model cfg self ha xw e k hk hread hsrc hino hnd).err_iff
+  (update_eq_model cfg self ha xw e k hk hread hsrc hino).err_iff
 
 end plain
 
@@ -318,8 +384,8 @@ theorem create_vanished_source_fails (cfg : Cfg) (self : Transferrer) (xw : XWor
     ∃ xw', runM (self.create (extOf cfg) e (destOf xw.root k)) xw = (.error .io, xw') ∧ Left xw xw' k ∧
       xw'.w.dst.get? k = xw.w.dst.get? k := by
   rw [(plain_file_call_sequence (extOf cfg) self e _ xw hdry hs hdir hh).1]
-  obtain ⟨xw', h1, h2⟩ := copy_file_err cfg self xw e.path k hk (fun sm h => absurd h (hgone sm))
-  refine ⟨xw', runM_bind_error h1, h2, ?_⟩
+  obtain ⟨xw', h1, h2⟩ := copy_file_err_strong cfg self xw e.path k hk (fun sm h => absurd h (hgone sm))
+  refine ⟨xw', runM_bind_error h1, h2.elim Or.inl (fun h => Or.inr (Or.inl h)), ?_⟩
   rcases h2 with rfl | ⟨d, hm, rfl⟩
   · rfl
   · show d.get? k = xw.w.dst.get? k
@@ -493,6 +559,27 @@ example : (runM (exSelf.create (extOf exCfg) exDir (destOf exWorld.root ["a", "o
     = exWorld.w.dst := by decide
 example : (runM (exSelf.create (extOf exCfg) exDir (destOf exWorld.root ["a", "old"])) exWorld).1.toBool = false := by
   decide
+
+/-- `update` of a directory entry over a destination LINK (fix 862af11): the world holds `lk -> /elsewhere`; the
+    translated `update` answers `Ok`, the link is gone and a directory stands at the key — nothing else changed -/
+def exWorldLink : XWorld :=
+  { exWorld with w := { exWorld.w with dst := (["lk"], .symlink "/elsewhere") :: exWorld.w.dst } }
+
+example : (runM (exSelf.update (extOf exCfg) exDir (destOf exWorldLink.root ["lk"])) exWorldLink).1.toBool = true := by
+  decide
+example : (runM (exSelf.update (extOf exCfg) exDir (destOf exWorldLink.root ["lk"])) exWorldLink).2.w.dst.get? ["lk"]
+    = some .dir := by decide
+example : (runM (exSelf.update (extOf exCfg) exDir (destOf exWorldLink.root ["lk"])) exWorldLink).2.w.dst.get? ["a", "old"]
+    = exWorldLink.w.dst.get? ["a", "old"] := by decide
+/-- … and it is what the model's `perform` computes (`update_dir_eq_model` applied) -/
+example : Agree exWorldLink ["lk"]
+    (runM (exSelf.update (extOf exCfg) exDir (destOf exWorldLink.root ["lk"])) exWorldLink)
+    (perform exCfg exWorldLink.w (absTask exCfg exWorldLink .update exDir ["lk"])) :=
+  update_dir_eq_model exCfg exSelf ⟨rfl, rfl, rfl⟩ exWorldLink exDir ["lk"] (by decide) rfl rfl
+/-- over the regular file `a/old` the probe answers "not a link" and `create_dir_all` fails: nothing changes -/
+example : (runM (exSelf.update (extOf exCfg) exDir (destOf exWorld.root ["a", "old"])) exWorld).1.toBool = false ∧
+    (runM (exSelf.update (extOf exCfg) exDir (destOf exWorld.root ["a", "old"])) exWorld).2.w.dst = exWorld.w.dst ∧
+    perform exCfg exWorld.w (absTask exCfg exWorld .update exDir ["a", "old"]) = none := by decide
 
 /-- deleting the directory `a` takes `a/old` with it -/
 example : (runM (exSelf.delete (extOf exCfg) (destOf exWorld.root ["a"]) true) exWorld).2.w.dst = [] := by decide
